@@ -92,11 +92,11 @@ def rtsafe_(f, x0, bracket, settings):
                   np.nan)
 
     # Check if either bracket is a root
-    leftBracketIsSolution = (fl == 0.0)
+    leftBracketIsSolution = (np.abs(fl) <= r_tol)
     x0 = np.where(leftBracketIsSolution, bracket[0], x0)
     converged = np.where(leftBracketIsSolution, True, converged)
 
-    rightBracketIsSolution = (fh == 0.0)
+    rightBracketIsSolution = (np.abs(fh) <= r_tol)
     x0 = np.where(rightBracketIsSolution, bracket[1], x0)
     converged = np.where(rightBracketIsSolution, True, converged)
 
@@ -112,6 +112,8 @@ def rtsafe_(f, x0, bracket, settings):
 
     F, DF = f_and_fprime(x0)
     functionCalls += 1
+    # the initial guess may already be a root (within the residual tolerance)
+    converged = converged | (np.abs(F) <= r_tol)
 
     def cond(carry):
         root, dx, dxOld, F, DF, xl, xh, converged, i = carry
@@ -137,7 +139,7 @@ def rtsafe_(f, x0, bracket, settings):
                              lambda rt, lo, hi: (lo, rt),
                              root, xl, xh)
         i += 1
-        converged = converged | (np.abs(dx) < x_tol) | (np.abs(F) < r_tol)
+        converged = converged | (np.abs(dx) < x_tol) | (np.abs(F) <= r_tol)
         return root, dx, dxOld, F, DF, xl, xh, converged, i
 
     x, dx, _, F, _, _, _, converged, iters = jax.lax.while_loop(cond,
